@@ -523,3 +523,11 @@ def ssum(xs, start=0):
     for x in xs:
         s = s + x
     return s
+
+
+def close(a, b, rel=1e-9, abs_=1e-9):
+    """equality for results that went through a float division: exact on symbolic
+    (exact-real) terms, tolerance on native floats (sampled / replay runs)"""
+    if is_sym(a) or is_sym(b):
+        return eq(a, b)
+    return math.isclose(a, b, rel_tol=rel, abs_tol=abs_)
